@@ -387,12 +387,63 @@ type traversal struct {
 // analyseTraversal finds the work lists of root (and its closures).
 func analyseTraversal(root *ssa.Function) *traversal {
 	fns := append([]*ssa.Function{root}, closuresOf(root)...)
+	// a batch producer: a module function whose result is spread into an append (`queue = append(queue, admit(…)...)`).
+	// The elements it returns are enqueued by that append, so the appends that build its result are enqueues made at the
+	// call, and its result is one web with the list it is spread into.
+	type batch struct {
+		app  *ssa.Call // the spreading append
+		call *ssa.Call
+		h    *ssa.Function
+	}
+	var batches []batch
+	for _, f := range fns {
+		for _, b := range f.Blocks {
+			for _, in := range b.Instrs {
+				c, ok := isBuiltinCall(in, "append")
+				if !ok || len(c.Call.Args) != 2 {
+					continue
+				}
+				hc, ok := c.Call.Args[1].(*ssa.Call)
+				if !ok || hc.Call.StaticCallee() == nil {
+					continue
+				}
+				h := hc.Call.StaticCallee()
+				if h.Parent() != nil || !inModule(h) || len(h.Blocks) == 0 || h == root {
+					continue
+				}
+				batches = append(batches, batch{c, hc, h})
+			}
+		}
+	}
+	producerSites := map[*ssa.Function][]ssa.Instruction{}
+	for _, bt := range batches {
+		if producerSites[bt.h] == nil {
+			fns = append(fns, bt.h)
+		}
+		producerSites[bt.h] = append(producerSites[bt.h], bt.call)
+	}
 	u := buildSliceWebs(fns)
+	for _, bt := range batches {
+		u.union(bt.app, bt.call)
+		for _, b := range bt.h.Blocks {
+			if rt, ok := b.Instrs[len(b.Instrs)-1].(*ssa.Return); ok && len(rt.Results) == 1 && isSliceType(rt.Results[0].Type()) {
+				u.union(bt.call, retVal(rt, 0))
+			}
+		}
+	}
 	// location of an instruction in terms of root blocks
-	locs := func(in ssa.Instruction) []ssa.Instruction {
+	var locs func(in ssa.Instruction) []ssa.Instruction
+	locs = func(in ssa.Instruction) []ssa.Instruction {
 		f := in.Parent()
 		if f == root {
 			return []ssa.Instruction{in}
+		}
+		if sites, ok := producerSites[f]; ok {
+			var out []ssa.Instruction
+			for _, s := range sites {
+				out = append(out, locs(s)...)
+			}
+			return out
 		}
 		for f.Parent() != nil && f.Parent() != root {
 			f = f.Parent()
@@ -412,7 +463,13 @@ func analyseTraversal(root *ssa.Function) *traversal {
 	for _, f := range fns {
 		for _, b := range f.Blocks {
 			for _, in := range b.Instrs {
-				if c, ok := isBuiltinCall(in, "append"); ok && len(c.Call.Args) > 0 && loopHeaderOfAny(root, locs(in)) != nil {
+				isBatch := false
+				for _, bt := range batches {
+					if ssa.Instruction(bt.app) == in {
+						isBatch = true // enqueues what the producer admitted: the producer's appends are the enqueue sites
+					}
+				}
+				if c, ok := isBuiltinCall(in, "append"); ok && !isBatch && len(c.Call.Args) > 0 && loopHeaderOfAny(root, locs(in)) != nil {
 					get(u.find(c)).appends = append(get(u.find(c)).appends, in)
 				}
 				if ia, ok := in.(*ssa.IndexAddr); ok && isSliceType(ia.X.Type()) {
@@ -485,6 +542,14 @@ func ruleGRDbfs(w *World, r *Report, specs []bfsSpec, rule string) {
 		root := w.SSAFunc(fi.Obj)
 		name := shortName(fi.Obj)
 		tr := analyseTraversal(root)
+		if len(tr.wls) == 0 { // the search loop may be a phase function of its own
+			for _, h := range w.extractedHelpers(root) {
+				if t2 := analyseTraversal(h); len(t2.wls) > 0 {
+					tr, root = t2, h
+					break
+				}
+			}
+		}
 		u, fns, wls, locs := tr.u, tr.fns, tr.wls, tr.locs
 		if len(wls) == 0 {
 			r.Und(rule, name+":enqueue", w.Pos(fi.Decl.Pos()), "no work list found: no slice is both appended to and read inside one loop")
@@ -711,6 +776,14 @@ func ruleGRDpathFind(w *World, r *Report) {
 	}
 	root := w.SSAFunc(fi.Obj)
 	tr := analyseTraversal(root)
+	if len(tr.wls) == 0 { // the search loop may be a phase function of its own
+		for _, h := range w.extractedHelpers(root) {
+			if t2 := analyseTraversal(h); len(t2.wls) > 0 {
+				tr, root = t2, h
+				break
+			}
+		}
+	}
 	if len(tr.wls) == 0 {
 		r.Und("GRD-path", "FindPath:frontiers", w.Pos(fi.Decl.Pos()), "no frontier work list found (algorithm restructured)")
 		return
@@ -840,6 +913,24 @@ func ruleGRDpathFind(w *World, r *Report) {
 					bounded = true
 					if lb := intBound(bnd, nil, nil, false, 0); lb >= 1 {
 						dflt = true
+					}
+					// the search loop is a phase function handed the (defaulted) bound: what its caller passes decides
+					if p, isParam := bnd.(*ssa.Parameter); isParam && !dflt && p.Parent() == root {
+						if top := w.SSAFunc(fi.Obj); top != root {
+							idx, all, n := -1, true, 0
+							for i, hp := range root.Params {
+								if hp == p {
+									idx = i
+								}
+							}
+							for _, cs := range callSitesOf(top, root) {
+								n++
+								if idx < 0 || idx >= len(cs.Call.Args) || intBound(cs.Call.Args[idx], nil, nil, false, 0) < 1 {
+									all = false
+								}
+							}
+							dflt = all && n > 0
+						}
 					}
 				}
 			}
